@@ -15,6 +15,8 @@ type Config struct {
 	PtyCols           int    `json:"pty_cols,omitempty"`
 	Delay             bool   `json:"delay,omitempty"`               // WithRenderDelay, released by a "release" step
 	DelaySleepRelease bool   `json:"delay_sleep_release,omitempty"` // the epilogue's release of a pending delay is followed by a 25 ms pause instead of empty Writes
+	OutSlowUs         int    `json:"out_slow_us,omitempty"`         // every Write of the (buffer) output takes this long
+	DebugSlowUs       int    `json:"debug_slow_us,omitempty"`       // every Write of the debug output takes this long
 	DelayNever        bool   `json:"delay_never,omitempty"`         // the render delay is never released, not even before Wait
 	Notifier          bool   `json:"notifier,omitempty"`            // WithShutdownNotifier
 	NoOutput          bool   `json:"no_output,omitempty"`
@@ -33,6 +35,7 @@ type DecorSpec struct {
 	Listener bool     `json:"listener,omitempty"`
 	Ewma     bool     `json:"ewma,omitempty"`
 	SlowUs   int      `json:"slow_us,omitempty"`  // Decor sleeps this long (widens race windows)
+	ViaAny   bool     `json:"via_any,omitempty"`  // built with decor.Any(fn, <default WC>, <this WC>) instead of the harness's own decorator type
 	Disabled bool     `json:"disabled,omitempty"` // switched off with decor.OnCondition(d, false): every wrapper must pass the nil on, the bar does not get it
 }
 
